@@ -1,9 +1,11 @@
 package checks
 
 import (
+	"bytes"
 	"encoding/binary"
 	"encoding/json"
 	"fmt"
+	"regexp"
 	"strings"
 
 	"verifharness/mc"
@@ -21,6 +23,9 @@ type c07case struct {
 	id  string
 	qe  func(qe []byte)                // edits the QE report before it is signed
 	id2 func(e *world.EnclaveIdentity) // edits the identity before it is signed
+	raw func(member []byte) []byte     // edits the identity's JSON text before it is signed
+	// soundOnly: only "accepted => matches" is judged (a document with a member missing need not be accepted)
+	soundOnly bool
 }
 
 func runC07(r *mc.Run) {
@@ -39,7 +44,7 @@ func runC07(r *mc.Run) {
 	}
 	var cases []c07case
 	add := func(id string, qe func([]byte), idf func(*world.EnclaveIdentity)) {
-		cases = append(cases, c07case{id, qe, idf})
+		cases = append(cases, c07case{id: id, qe: qe, id2: idf})
 	}
 	add("baseline", nil, nil)
 	for bit := 0; bit < 32; bit++ {
@@ -152,6 +157,46 @@ func runC07(r *mc.Run) {
 			}
 		}
 	}
+	// members absent from / null in the signed JSON (a zero value must not be read as a match or as UpToDate)
+	dropMember := func(name string, nth int, repl string) func([]byte) []byte {
+		return func(m []byte) []byte {
+			re := regexp.MustCompile(`"` + name + `":("[^"]*"|[0-9]+|\{[^{}]*\}),?`)
+			k := 0
+			out := re.ReplaceAllFunc(m, func(b []byte) []byte {
+				k++
+				if k-1 != nth {
+					return b
+				}
+				if repl == "" {
+					return nil
+				}
+				tail := ""
+				if b[len(b)-1] == ',' {
+					tail = ","
+				}
+				return []byte(`"` + name + `":` + repl + tail)
+			})
+			return bytes.ReplaceAll(bytes.ReplaceAll(out, []byte(",}"), []byte("}")), []byte(",]"), []byte("]"))
+		}
+	}
+	threeLevels := func(e *world.EnclaveIdentity) {
+		e.TcbLevels = []world.Level{mkLevel(9, "UpToDate"), mkLevel(8, "Revoked"), mkLevel(7, "UpToDate")}
+	}
+	for _, name := range []string{"miscselect", "miscselectMask", "attributes", "attributesMask", "mrsigner", "isvprodid", "id", "version", "issueDate", "nextUpdate"} {
+		for _, v := range []struct{ n, repl string }{{"absent", ""}, {"null", "null"}} {
+			cases = append(cases, c07case{id: "member/" + name + "=" + v.n, raw: dropMember(name, 0, v.repl), soundOnly: true})
+		}
+	}
+	for lvl := 0; lvl < 3; lvl++ {
+		for _, name := range []string{"tcbStatus", "tcbDate", "isvsvn", "tcb"} {
+			for _, v := range []struct{ n, repl string }{{"absent", ""}, {"null", "null"}, {"empty", `""`}} {
+				if v.n == "empty" && name != "tcbStatus" && name != "tcbDate" {
+					continue
+				}
+				cases = append(cases, c07case{id: fmt.Sprintf("member/level%d.%s=%s", lvl, name, v.n), id2: threeLevels, raw: dropMember(name, lvl, v.repl), soundOnly: true})
+			}
+		}
+	}
 	// pairs of single-field deviations (wiring mistakes show up as a verdict that needs both)
 	singles := []c07case{}
 	for _, c := range cases {
@@ -199,6 +244,13 @@ func runC07(r *mc.Run) {
 			c.id2(&e)
 		}
 		member := world.MustJSON(e)
+		if c.raw != nil {
+			member = c.raw(member)
+			if !json.Valid(member) {
+				r.HarnessError("C07 %s: edited identity is not valid JSON: %s", c.id, member)
+				return
+			}
+		}
 		g := w.Getter.Clone()
 		g.Responses[world.URLQeIdentity] = world.Response{Header: w.QeHdr, Body: world.SignedBody("enclaveIdentity", member, w.PKI.TcbKey)}
 		o := w.Options(world.L1)
@@ -216,7 +268,7 @@ func runC07(r *mc.Run) {
 		case err == nil && !want:
 			r.Violate("accepted:"+strings.ReplaceAll(why, " ", "-")+":"+kindOf(c.id), c.id, "quote accepted although the QE does not match Intel's QE identity: "+why, detail)
 			out = "accept!"
-		case err != nil && want:
+		case err != nil && want && !c.soundOnly:
 			r.Violate("rejected-matching-qe:"+kindOf(c.id), c.id, "quote rejected although the QE matches the identity and is UpToDate: "+errStr(err), detail)
 			out = "reject!"
 		}
